@@ -1,6 +1,7 @@
 package simrt
 
 import (
+	"context"
 	"io"
 	"net"
 	"os"
@@ -202,6 +203,25 @@ func Listen(network, address string) (net.Listener, error) {
 	raceEnable()
 	w.Emit("listen", 0, 0, int64(pn), 0, address, nil)
 	return l, nil
+}
+
+// ListenVia replaces lc.Listen(ctx, network, address) for any lc (a
+// net.ListenConfig): in a simulated run the socket options a Control function
+// would set are beyond the model, and the listener is the simulated one.
+//
+//go:norace
+func ListenVia(lc interface{}, ctx interface{}, network, address string) (net.Listener, error) {
+	if cur == nil {
+		type listener interface {
+			Listen(ctx context.Context, network, address string) (net.Listener, error)
+		}
+		if l, ok := lc.(listener); ok {
+			c, _ := ctx.(context.Context)
+			return l.Listen(c, network, address)
+		}
+		return net.Listen(network, address)
+	}
+	return Listen(network, address)
 }
 
 // Addr implements net.Listener.
